@@ -42,11 +42,18 @@ func runOne(pctx context.Context, sp solverSpec, script string, timeout time.Dur
 		return &SolverResult{Status: "timeout", Solver: sp.name}
 	}
 	defer func() { <-solverSem }()
-	// the budget counts from the moment the solver actually starts
-	ctx, cancel := context.WithTimeout(pctx, timeout)
+	// The budget is CPU time of the solver process (ulimit -t), so that a loaded machine (other
+	// checks running beside this one) does not turn a proof into a timeout; wall-clock time is
+	// only a generous backstop.
+	cpu := int(timeout.Seconds() + 0.999)
+	if cpu < 1 {
+		cpu = 1
+	}
+	ctx, cancel := context.WithTimeout(pctx, 12*timeout+30*time.Second)
 	defer cancel()
 	start := time.Now()
-	cmd := exec.CommandContext(ctx, sp.args[0], sp.args[1:]...)
+	cmd := exec.CommandContext(ctx, "sh", "-c", fmt.Sprintf("ulimit -t %d; exec \"$@\"", cpu), "sh")
+	cmd.Args = append(cmd.Args, sp.args...)
 	cmd.Stdin = strings.NewReader(sp.pre + script)
 	var out bytes.Buffer
 	cmd.Stdout = &out
@@ -58,7 +65,12 @@ func runOne(pctx context.Context, sp solverSpec, script string, timeout time.Dur
 	case "unsat", "sat", "unknown":
 		res.Status = first
 	default:
-		if ctx.Err() != nil {
+		cpuOut := false
+		if ee, ok := err.(*exec.ExitError); ok && ee.ProcessState != nil {
+			used := ee.ProcessState.UserTime() + ee.ProcessState.SystemTime()
+			cpuOut = used >= time.Duration(cpu)*time.Second-500*time.Millisecond
+		}
+		if ctx.Err() != nil || cpuOut {
 			res.Status = "timeout"
 		} else {
 			res.Status = "error"
